@@ -147,6 +147,8 @@ def run(ctx, rep) -> None:
         scs += H.gen_scenarios(ctx.seed, n // len(PROFILES), p)
     # a handler that registers two sub-handlers whenever it runs (Handling.tla with conf.subs: InvokeSub / ParentEnd)
     scs += H.gen_scenarios(ctx.seed, 50 if ctx.quick else 1000, 'subs')
+    # resume handlers that fail and are superseded by an update while they wait for their retry (the record must be carried over)
+    scs += H.gen_scenarios(ctx.seed, 60 if ctx.quick else 1200, 'resume')
     # handlers with timeout=T: the record's creation instant is part of the compared state, NoLateAttempt is evaluated in every state
     scs += H.gen_scenarios(ctx.seed, 60 if ctx.quick else 1200, 'timeouts')
     _family.run_traces(rep, scs, '+'.join(PROFILES), nontrivial=lambda f: bool(f & FEATURES))
